@@ -21,7 +21,7 @@ META = dict(
          'operand call compared with the reference; non-trivial = non-zero spherical term; distinct = rounded Seidel sums',
     exhaustive=True,
     bounds=dict(quick='words depth<=2 over 9 symbols + depth 3 over 6, every stop, objects {inf, finite} + immersed image with vanishing field',
-                thorough='depth<=3 over 9 symbols + depth 4 over the 5 mirror-free symbols, 4 numeric variants'),
+                thorough='depth<=3 over 9 symbols + depth 4 over 4 mirror-free symbols, 4 numeric variants'),
     tolerances=dict(cross_derivation='1e-8 relative to the largest term of the family', limit='observed order >= 1.8'),
     assumptions=['Welford surface contributions with signed indices', 'library sign convention frozen in vmc/ref/seidel.py',
                  'dn = n(0.4861) - n(0.6563) as the library documents'],
@@ -46,7 +46,7 @@ def alphabet(v):
     ]
 
 
-MIRROR_FREE = [0, 1, 2, 3, 5]
+MIRROR_FREE = [0, 1, 2, 3]
 
 
 def units(tier, variant):
